@@ -329,7 +329,7 @@ def n_units(case):
 
 def run(ctx):
     rng = ctx.rng
-    for i in range(ctx.scale(150, 1000)):
+    for i in range(ctx.scale(150, 4000)):
         if ctx.out_of_time():
             break
         case = GENS[i % len(GENS)](rng)
